@@ -14,7 +14,7 @@ fn fmt_stub2(_a: core::fmt::Arguments<'_>) -> String {
 // @harness c18_add_cache_slice
 // @props C18 C16 C01 C02
 // @tier quick
-// @cost 60
+// @cost 20
 // @timeout 900
 // @needs S0
 // @desc the whole body of add_cache_slice (cache slot, new-cluster lookup and backend read shimmed; L2Table instantiation): a slice that is not cached yet gets the host offset parent_entry + slice_off; if its cluster is not new it is loaded by exactly one read of the slice size at that (block-aligned) offset, it stays clean and the device-wide need_flush flag is NOT changed -- in particular never cleared while other metadata is dirty; if the cluster is new nothing is read, the slice is dirty and need_flush is set; an already loaded slice is left alone
